@@ -73,6 +73,8 @@ def check_views(cs, uni, stored, out, hist, tag, reverse=False):
 def _worker(hists, quick_modes=False):
     from skepticoin.wallet import Wallet
     ledger.setup()
+    from .. import seams
+    seams.deterministic_wallet_signing()
     uni = ledger.tx_universe('easy')
     now = world.T0 + 10**6
     out = []
@@ -83,7 +85,7 @@ def _worker(hists, quick_modes=False):
     for hist in hists:
         stored = [uni.root] + [uni.get(p) for p in hist]
         per_block = None
-        modes = ((True, None), (False, None), (True, 'head'), (False, 'all'))
+        modes = ((True, None), (False, None), (True, 'head'), (False, 'all'), (True, 'wallet'))
         if len(hist) >= deepest:
             modes = ((True, 'head'), (False, None))     # quick tier: two of the four build modes at the deepest level
         for validated, lookups in modes:
